@@ -60,4 +60,26 @@ theorem matDetS_is {A : Store α} {kA : Kind} {m n : Nat} {Am : Mat α m n} (hA 
     (fun hne => matDetS_refines hA.1 hne)
   exact this hne
 
+/-! ### witness of the defect repaired in `solve(B, B)` (exact arithmetic in `Rat`) -/
+
+/-- the row-exchange matrix `[[0,1],[1,0]]` and the right-hand side `(3,5)ᵀ` -/
+def witA : Store Rat := Store.ofFn .row 2 2 (fun i j => if i = j then 0 else 1)
+def witB : Store Rat := Store.ofFn .row 2 1 (fun i _ => if i = 0 then 3 else 5)
+
+/-- the call returned and entry `(i,j)` of the output is `v` -/
+def entryIs (r : LUS.Res (Rat × Store Rat)) (i j : Nat) (v : Rat) : Bool :=
+  match r with
+  | .ok (_, X) => (match X.get i j with | .ok x => x == v | .error _ => false)
+  | .error _ => false
+
+/-- with separate operands the solution of `A·x = (3,5)ᵀ` is `(5,3)ᵀ`; so it is for `solve(B, B)`
+after the repair; the text before the repair returned `(5,5)ᵀ` -/
+def witAliasing : Bool :=
+  match constructS witA with
+  | .ok s =>
+    entryIs (solveS s witB (Store.empty .row)) 0 0 5 && entryIs (solveS s witB (Store.empty .row)) 1 0 3 &&
+    entryIs (solveSelfS s witB) 0 0 5 && entryIs (solveSelfS s witB) 1 0 3 &&
+    entryIs (solveSelfOrigS s witB) 0 0 5 && entryIs (solveSelfOrigS s witB) 1 0 5
+  | .error _ => false
+
 end Bpp.LUS
